@@ -3,6 +3,7 @@ import Logrange.Proofs.DateRoundTrip
 import Logrange.Proofs.DateLineParser
 import Logrange.Generated.C20
 import Logrange.Props.C20Formats
+import Logrange.Props.C20Findings
 /-!
 # C20 — Timestamp text is parsed to the instant it denotes, for every supported format
 
